@@ -83,6 +83,7 @@ def gen_case(seed, index):
     cli = rng.choice(["none", "none", "shell", "arg", "both", "clear", "shell-clear"])
     set_shell = rng.random() < 0.5
     set_script = rng.random() < 0.5
+    where = rng.choice(["root", "root", "module"])
     lines = []       # physical body lines: dict(kind=line|blank, pieces, extra, cont)
     n = rng.randint(1, 6)
     prev_cont = False
@@ -121,7 +122,7 @@ def gen_case(seed, index):
     if kind == "shebang":
         lines.insert(0, {"kind": "line", "pieces": [("text", "#!@SHEBANG@ sbarg")], "extra": "", "cont": False})
     return {"index": index, "kind": kind, "indent": indent, "eol": eol, "ignore_comments": ignore_comments, "cli": cli,
-            "set_shell": set_shell, "set_script": set_script, "lines": lines}
+            "set_shell": set_shell, "set_script": set_script, "lines": lines, "where": where}
 
 
 def build(case, d):
@@ -163,7 +164,7 @@ def build(case, d):
         argv += ["--shell-arg", "-A", "--shell-arg", "-B"]
     if cli in ("clear", "shell-clear"):
         argv += ["--clear-shell-args"]
-    argv += ["r"]
+    argv += ["m::r" if case.get("where") == "module" else "r"]
     return text, argv, header_index
 
 
@@ -300,17 +301,27 @@ def run_case(case):
     with C.scratch("c06") as d:
         b = os.path.join(d, "bin")
         os.makedirs(b)
-        for name in ["sh", "setsh", "setscr", "ownscr", "shbang", "clish"]:
+        for name in ["sh", "setsh", "setscr", "ownscr", "shbang", "clish", "rootsh", "rootscr"]:
             os.symlink(C.VSH, os.path.join(b, name))
         text, argv, header_index = build(case, d)
-        with open(os.path.join(d, "justfile"), "wb") as f:
-            f.write(text.encode("utf-8"))
+        if case.get("where") == "module":
+            # the recipe lives in a submodule with its own settings; the root's settings must not leak into it
+            with open(os.path.join(d, "m.just"), "wb") as f:
+                f.write(text.encode("utf-8"))
+            root = "set shell := ['%s/rootsh', '-r']\nset unstable\nset script-interpreter := ['%s/rootscr', '-R']\nmod m\n" % (b, b)
+            with open(os.path.join(d, "justfile"), "wb") as f:
+                f.write(root.encode("utf-8"))
+        else:
+            with open(os.path.join(d, "justfile"), "wb") as f:
+                f.write(text.encode("utf-8"))
         log = os.path.join(d, "vsh.log")
         env = {"VSH_LOG": log, "PATH": b + ":/usr/bin:/bin"}
         rc0, out0, err0 = C.run_just(["--dump", "--dump-format", "json"], d, env=env)
         if rc0 != 0:
             return {"case": case, "text": text, "argv": argv, "compile_error": err0.decode("utf-8", "replace")[-400:]}
         dump = json.loads(out0)
+        if case.get("where") == "module":
+            dump = dump["modules"]["m"]
         if os.path.exists(log):
             os.unlink(log)
         rc, out, err = C.run_just(argv, d, env=env)
@@ -346,6 +357,8 @@ def run(report):
         c = r["case"]
         stats["kinds"][c["kind"]] = stats["kinds"].get(c["kind"], 0) + 1
         stats["cli"][c["cli"]] = stats["cli"].get(c["cli"], 0) + 1
+        stats.setdefault("where", {})
+        stats["where"][c.get("where", "root")] = stats["where"].get(c.get("where", "root"), 0) + 1
         stats["eol"][repr(c["eol"])] = stats["eol"].get(repr(c["eol"]), 0) + 1
         stats["continued_groups"] += sum(1 for l in c["lines"] if l.get("cont"))
         replay = {"justfile": r["text"], "argv": r["argv"], "seed": report.seed, "index": c["index"]}
